@@ -257,6 +257,11 @@ pub fn run_endpoint(steps: Vec<Step>, mode: Mode, stop_after_msgs: Option<usize>
         let mut msgs = 0usize;
         let mut n = 0usize;
         loop {
+            // an endpoint that keeps "delivering" without consuming input must not run the harness out of memory
+            if msgs > 10_000 {
+                ev2.lock().unwrap().push(Ev::OtherErr("more than 10000 messages delivered from a script of a few frames".into()));
+                break;
+            }
             if let Some(k) = stop_after_msgs {
                 if msgs >= k {
                     break;
@@ -413,6 +418,96 @@ fn handshakes(st: &mut Stats) {
         }
     }
     // empty key value: header present but empty
+    st.merge(s);
+}
+
+/// The asynchronous flavour of the upgrade handler (`async_websocket_handler`, used to link an
+/// AsyncWebsocketApp to an App) and the `Read`/`Write` view of a WebsocketStream.
+fn other_entry_points(st: &mut Stats) {
+    use humphrey_ws::handler::async_websocket_handler;
+    use std::io::{Read, Write};
+    let mut s = Stats::default();
+    // (a) the hook receives the upgraded stream exactly when the handshake succeeded
+    let keys: Vec<Option<String>> = vec![None, Some("dGhlIHNhbXBsZSBub25jZQ==".into()), Some(String::new()), Some("k".repeat(20))];
+    for k in &keys {
+        s.evaluations += 1;
+        s.states += 1;
+        s.transitions += 1;
+        s.nontrivial += 1;
+        let (tx, rx) = humphrey::verif::sync::mpsc::channel::<WebsocketStream>();
+        let hook = Arc::new(humphrey::verif::sync::Mutex::new(tx));
+        let sock = ScriptSock::new("127.0.0.1:4000".parse().unwrap(), vec![Step::Eof]);
+        let (s2, k2) = (sock.clone(), k.clone());
+        let r = std::panic::catch_unwind(std::panic::AssertUnwindSafe(move || {
+            let h = async_websocket_handler::<()>(hook);
+            h(request_with_key(k2.as_deref()), Stream::Tcp(TcpStream::Script(s2)), Arc::new(()));
+        }));
+        let out = sock.lock().unwrap().out.clone();
+        let delivered = rx.try_recv().is_ok();
+        let second = rx.try_recv().is_ok();
+        let ctx = || json!({"entry": "async_websocket_handler", "key": k, "out": show(&out[..out.len().min(200)]), "stream_handed_to_the_app": delivered});
+        if r.is_err() {
+            s.violation("handshake: panicked", ctx);
+            continue;
+        }
+        match k {
+            None => {
+                if delivered || out.windows(12).any(|w| w == b"HTTP/1.1 101") {
+                    s.violation("handshake: request without Sec-WebSocket-Key was upgraded", ctx);
+                }
+            }
+            Some(key) => {
+                let ok = split_handshake(&out).map_or(false, |(head, rest)| {
+                    let acc = head.split("\r\n").find_map(|l| l.split_once(':').filter(|(n, _)| n.eq_ignore_ascii_case("sec-websocket-accept")).map(|(_, v)| v.trim().to_string()));
+                    head.starts_with("HTTP/1.1 101") && acc.as_deref() == Some(accept_for(key).as_str()) && rest.is_empty()
+                });
+                if !ok || !delivered || second {
+                    s.violation("handshake: missing 101 or wrong Sec-WebSocket-Accept", ctx);
+                }
+            }
+        }
+        s.outcome("async-upgrade");
+    }
+    // (b) Read: one message per call, only if it fits; Write: one message per call
+    for len in [0usize, 1, 5, 126] {
+        for cap in [len.saturating_sub(1), len, len + 1] {
+            s.evaluations += 1;
+            s.states += 1;
+            s.transitions += 1;
+            s.nontrivial += 1;
+            let payload = pattern(len);
+            let frame = ref_encode(true, [false; 3], 2, true, [1, 2, 3, 4], &payload);
+            let sock = ScriptSock::new("127.0.0.1:4000".parse().unwrap(), vec![Step::Seg(frame), Step::Eof]);
+            let res: Arc<Mutex<Option<(std::io::Result<usize>, Vec<u8>, std::io::Result<usize>)>>> = Arc::new(Mutex::new(None));
+            let r2 = res.clone();
+            let handler = websocket_handler(move |mut ws: WebsocketStream, _st: Arc<()>| {
+                let mut buf = vec![0u8; cap];
+                let n = ws.read(&mut buf);
+                let w = ws.write(b"abc");
+                *r2.lock().unwrap() = Some((n, buf, w));
+            });
+            let s2 = sock.clone();
+            let r = std::panic::catch_unwind(std::panic::AssertUnwindSafe(move || handler(request_with_key(Some("dGhlIHNhbXBsZSBub25jZQ==")), Stream::Tcp(TcpStream::Script(s2)), Arc::new(()))));
+            let out = sock.lock().unwrap().out.clone();
+            let ctx = || json!({"entry": "impl Read/Write for WebsocketStream", "message_len": len, "buffer_len": cap});
+            let Some((n, buf, w)) = res.lock().unwrap().take() else {
+                s.violation("Read/Write on a WebsocketStream: handler not run or panicked", ctx);
+                continue;
+            };
+            let _ = r;
+            let fits = len <= cap;
+            let read_ok = match &n {
+                Ok(k) => fits && *k == len && buf[..len] == payload[..],
+                Err(_) => !fits,
+            };
+            let frames = split_handshake(&out).map(|(_, rest)| parse_server_frames(rest));
+            let wrote_ok = matches!(w, Ok(3)) && matches!(&frames, Some(Ok(f)) if f.first().map_or(false, |x| x.2 == b"abc" && x.1));
+            if !read_ok || !wrote_ok {
+                s.violation("Read/Write on a WebsocketStream does not deliver / send exactly one message", || json!({"message_len": len, "buffer_len": cap, "read": format!("{:?}", n), "write": format!("{:?}", w), "server_frames": format!("{:?}", frames).chars().take(200).collect::<String>()}));
+            }
+            s.outcome("io-traits");
+        }
+    }
     st.merge(s);
 }
 
@@ -728,6 +823,7 @@ pub fn run(mut cx: Ctx) -> ! {
     cx.assume("a vanished client is not detected by non-blocking receive (documented limitation): the reference does not expect a read error there");
     let mut st = Stats::default();
     handshakes(&mut st);
+    other_entry_points(&mut st);
     server_sends(&mut st, cx.quick());
     let small: Vec<usize> = data_lens.iter().copied().filter(|&l| l < 1000).collect();
     let big: Vec<usize> = data_lens.iter().copied().filter(|&l| l >= 1000).collect();
